@@ -44,7 +44,7 @@ def _modes(wrapper):
 def pit_cases(draw):
     fam = draw(st.sampled_from(['1d', '2d']))
     spec = draw(ng.netspecs(ng.Profile(
-        family=fam, pads=('causal', 'same', 'none'), standalone_bn=True, exclude=True, reuse=True,
+        family=fam, pads=('causal', 'same', 'none', 'valid'), standalone_bn=True, exclude=True, reuse=True,
         multi_input=True, max_blocks=4, min_blocks=1)))
     mode = draw(st.sampled_from(['auto', 'auto', 'auto', 'import']))
     plain = []
